@@ -568,7 +568,7 @@ func c14Bounds(p *Prog, c *Check) {
 		rule:     "C14-R3",
 		reviewed: c14Reviewed,
 		stop: func(f *ssa.Function) bool {
-			n := f.Name()
+			n := fnName(f)
 			// named cut: phase shifting and DKG bookkeeping index by values produced by the trusted puredkg, not by event data
 			return strings.HasPrefix(n, "shiftPhase") || strings.HasPrefix(n, "startPhase") || n == "finalizeDKG" || n == "sendPolyEvals"
 		},
